@@ -721,11 +721,49 @@ func ruleNumberSign(c *Ctx) {
 		return
 	}
 	signed := false
+	signs := map[byte]bool{} // the sign characters that can stand in front of the digits
 	for v := range backSlice(normCall.Common().Args[0]) {
 		if bin, ok := v.(*ssa.BinOp); ok && bin.Op == token.ADD {
 			for _, op := range []ssa.Value{bin.X, bin.Y} {
 				if k, ok := op.(*ssa.Const); ok && k.Value != nil && k.Value.Kind() == constant.String && constant.StringVal(k.Value) == "-" {
 					signed = true
+					signs['-'] = true
+				}
+			}
+			// a prefix that is not a constant: the text of the sign token.  It is recognised by a test of that very
+			// value against a string constant among the conditions of the concatenation; `== "-"` fixes the sign,
+			// any other test (`!= ""`) lets every sign the lexer knows through.
+			if _, isK := bin.X.(*ssa.Const); !isK && types.TypeString(bin.X.Type().Underlying(), nil) == "string" {
+				tested := false
+				var fixed []string
+				for _, cc := range append(controlCondsPol(bin.Block()), controlDeps(bin.Block())...) {
+					bo, ok := cc.Cond.(*ssa.BinOp)
+					if !ok || (bo.Op != token.EQL && bo.Op != token.NEQ) {
+						continue
+					}
+					var k *ssa.Const
+					switch {
+					case stripConv(bo.X) == stripConv(bin.X):
+						k, _ = bo.Y.(*ssa.Const)
+					case stripConv(bo.Y) == stripConv(bin.X):
+						k, _ = bo.X.(*ssa.Const)
+					}
+					if k == nil || k.Value == nil || k.Value.Kind() != constant.String {
+						continue
+					}
+					tested = true
+					if sv := constant.StringVal(k.Value); sv != "" && ((bo.Op == token.EQL && cc.Taken) || (bo.Op == token.NEQ && !cc.Taken)) {
+						fixed = append(fixed, sv)
+					}
+				}
+				if tested {
+					signed = true
+					if len(fixed) == 0 {
+						fixed = []string{"-", "+"}
+					}
+					for _, sv := range fixed {
+						signs[sv[0]] = true
+					}
 				}
 			}
 		}
@@ -758,19 +796,31 @@ func ruleNumberSign(c *Ctx) {
 		seen[fd] = true
 		fname := c.P.declName(fd)
 		mentionsSign := func(e ast.Node) bool {
-			found := false
-			ast.Inspect(e, func(x ast.Node) bool {
-				if bl, ok := x.(*ast.BasicLit); ok {
-					if bl.Kind == token.CHAR && bl.Value == "'-'" {
-						found = true
+			all := true
+			for ch := range signs {
+				found := false
+				ast.Inspect(e, func(x ast.Node) bool {
+					if bl, ok := x.(*ast.BasicLit); ok {
+						if bl.Kind == token.CHAR && bl.Value == "'"+string(ch)+"'" {
+							found = true
+						}
+						if bl.Kind == token.STRING && strings.Contains(bl.Value, string(ch)) {
+							found = true
+						}
 					}
-					if bl.Kind == token.STRING && strings.Contains(bl.Value, "-") {
-						found = true
-					}
+					return true
+				})
+				if !found {
+					all = false
 				}
-				return true
-			})
-			return found
+			}
+			return all
+		}
+		signList := ""
+		for _, ch := range []byte{'-', '+'} {
+			if signs[ch] {
+				signList += "'" + string(ch) + "' "
+			}
 		}
 		// conditions that compare a byte with '0'
 		var conds []ast.Expr
@@ -825,7 +875,7 @@ func ruleNumberSign(c *Ctx) {
 			n++
 			c.check(mentionsSign(cond), "N-SIGN", fname, "zero-digit test ignores the sign", cond.Pos(),
 				"the test that decides whether the integer part is only zeros also skips '-' (`"+exprStr(c.P.Fset, cond)+"`)",
-				"the amount parser prepends '-' to the digits before normalising, but this test of the integer part (`"+exprStr(c.P.Fset, cond)+"`) treats the sign as a significant digit: \"-0.125\" is read as -125 while \"0.125\" stays 0.125, so the balance verdict depends on the sign")
+				"the amount parser can prepend a sign ("+strings.TrimSpace(signList)+") to the digits before normalising, but this test of the integer part (`"+exprStr(c.P.Fset, cond)+"`) treats one of them as a significant digit: \"-0.125\" / \"+0.125\" is read as 125 while \"0.125\" stays 0.125, so the balance verdict depends on the sign")
 		}
 		// helpers that receive the string or a prefix of it
 		ast.Inspect(fd.Body, func(x ast.Node) bool {
